@@ -305,6 +305,10 @@ pub trait Part: Send + Sync {
     fn has_fuzz_decoder(&self) -> bool {
         false
     }
+    /// the known-finding signature the stored case falls under, if any
+    fn signature_of(&self, _case: &Value) -> Option<String> {
+        None
+    }
 }
 
 /// A generated-case part: strategy + pure run function.
@@ -353,10 +357,11 @@ fn is_known<C>(
     fail: &Fail,
     known: &[KnownFinding],
 ) -> Option<String> {
+    // a case may fall under several recorded situations: the signature is a '|'-separated list
     let s = sig(c)?;
     known
         .iter()
-        .find(|k| k.signature == s && (k.kind.is_empty() || k.kind == fail.kind))
+        .find(|k| s.split('|').any(|x| x == k.signature) && (k.kind.is_empty() || k.kind == fail.kind))
         .map(|k| k.signature.clone())
 }
 
@@ -584,6 +589,11 @@ where
     fn has_fuzz_decoder(&self) -> bool {
         self.decode.is_some()
     }
+
+    fn signature_of(&self, case: &Value) -> Option<String> {
+        let c: C = serde_json::from_value(case.clone()).ok()?;
+        (self.signature)(&c).map(|s| s.to_string())
+    }
 }
 
 /// A bounded-exhaustive or otherwise hand-enumerated part.
@@ -690,6 +700,21 @@ pub fn run_replay(prop: &Property, path: &str) -> i32 {
         }
         Ok((part, Err(f))) => {
             println!("replay {path}: part {part}: [{}] {}", f.kind, f.msg);
+            // tell whether this is one of the recorded findings (the replay still exits 1: it fails)
+            if let Ok(text) = std::fs::read_to_string(path) {
+                if let Ok(v) = serde_json::from_str::<Value>(&text) {
+                    if let Some(p) = prop.parts.iter().find(|p| p.name() == part) {
+                        if let Some(sig) = p.signature_of(&v["case"]) {
+                            let known = load_known(prop.id);
+                            if let Some(k) = known.iter().find(|k| sig.split('|').any(|x| x == k.signature) && (k.kind.is_empty() || k.kind == f.kind)) {
+                                println!("(falls under the recorded finding [{}]: {})", k.signature, k.what);
+                            } else {
+                                println!("(case signature {sig}, no recorded finding with failure kind {})", f.kind);
+                            }
+                        }
+                    }
+                }
+            }
             println!("VIOLATION property={} replay={}", prop.id, path);
             1
         }
